@@ -8,11 +8,11 @@ It must be installed AFTER corankco (hence PuLP) has been imported: PuLP's own c
 `import cplex` at import time.  install() sets sys.modules['cplex'] and the module global
 corankco.algorithms.exact.exactalgorithmcplex.cplex.
 
-Solving: the variables are named x_i_j (i before j) and t_i_j (i tied with j, i<j).  For n <= 6 the
+Solving: the variables are named x_i_j (i before j) and t_i_j (i tied with j, i<j).  For n <= 7 the
 candidate assignments are the encodings of all bucket orders; every recorded row is checked on every
 candidate (numpy), the objective is minimised over the candidates that satisfy all rows.  That the rows
 admit exactly the bucket-order encodings is NOT assumed to be true of the code: it is checked by TLC on
-the captured rows (spec/ILP.tla).  For n > 6, solve() builds the same MILP in PuLP and calls CBC.
+the captured rows (spec/ILP.tla).  For n > 7, solve() builds the same MILP in PuLP and calls CBC.
 """
 import itertools
 import sys
@@ -21,6 +21,8 @@ import types
 import numpy as np
 
 CAPTURE = []          # list of dicts describing every model built (names, objective, rows, senses, rhs)
+_CANDS = {}           # cache of the candidate assignments (encodings of all bucket orders) per variable layout
+ENUM_MAX = 7          # enumeration up to this number of elements (47 293 bucket orders at 7)
 
 
 def bucket_orders(elems):
@@ -150,6 +152,13 @@ class Cplex:
                         "senses": list(self.senses), "rhs": list(self.rhs)})
 
     def _candidates(self, n):
+        key = (n, tuple(self.names))
+        if key not in _CANDS:
+            _CANDS.clear() if len(_CANDS) > 6 else None
+            _CANDS[key] = self._candidates_build(n)
+        return _CANDS[key]
+
+    def _candidates_build(self, n):
         idx = {nm: k for k, nm in enumerate(self.names)}
         cands = []
         for bo in bucket_orders(range(n)):
@@ -208,7 +217,7 @@ class Cplex:
     def solve(self):
         self._capture()
         n = self._n()
-        if n <= 6:
+        if n <= ENUM_MAX:
             Xf, vals = self._feasible_enum(n)
             if len(Xf) == 0:
                 raise CplexError("infeasible")
@@ -220,8 +229,8 @@ class Cplex:
     def populate_solution_pool(self):
         self._capture()
         n = self._n()
-        if n > 6:
-            raise CplexError("stand-in: solution pool only for n <= 6")
+        if n > ENUM_MAX:
+            raise CplexError("stand-in: solution pool only for n <= %d" % ENUM_MAX)
         Xf, vals = self._feasible_enum(n)
         if len(Xf) == 0:
             raise CplexError("infeasible")
